@@ -423,6 +423,25 @@ def make_app_classes():
 
         async def on_close(self, rsocket, exception=None):
             self.w.rec.log(self.ep, 'cb_close')
+            if self.w.opts.get('on_close_drains'):
+                # a graceful-drain handler: it waits for the calls this endpoint still had in flight to come back (they have been failed
+                # by the time on_close is called) before it lets the connection go - for at most 5 s (virtual)
+                def in_flight():
+                    n = 0
+                    for it in self.w.inter.values():
+                        if it.get('init') != self.ep or it.get('raised'):
+                            continue
+                        f = it.get('future')
+                        if f is not None and not f.done():
+                            n += 1
+                        sub = it.get('sub')
+                        if sub is not None and getattr(sub, 'subscription', None) is not None and not sub.terminated and not sub.cancelled:
+                            n += 1
+                    return n
+                for _ in range(500):
+                    if in_flight() == 0:
+                        break
+                    await asyncio.sleep(0.01)
             await self._auto_reconnect(rsocket, 'reconnect_on_close')
             await self._auto_close(rsocket, 'close_on_close')
 
